@@ -141,7 +141,7 @@ class Message(BaseMessage):
             raise ValueError('copy must be same message type')
 
         if 'data' in overrides:
-            overrides['data'] = bytearray(overrides['data'])
+            overrides['data'] = tuple(overrides['data'])
 
         msgdict = vars(self).copy()
         msgdict.update(overrides)
